@@ -783,7 +783,9 @@ class RootSourcedStateBackend(StateBackend):
         All arguments match the base class.
         """
         scopes = params.get_list("pool_scope")
-        if "shared" not in scopes:
+        # TODO: boot state has to be deprecated and it cannot be handled remotely
+        is_vm = params.get("object_type") in ["vms", "nets/vms"]
+        if "shared" not in scopes or is_vm:
             cls._get_root(params, object)
             return
         elif "own" not in scopes:
